@@ -40,7 +40,7 @@ def build_model(defs=()):
     return m
 
 
-def run_property(pid, tier, m=None, configs=None, quiet=False):
+def run_property(pid, tier, m=None, configs=None, quiet=False, shared_ctx=None):
     t0 = time.time()
     seed = int(os.environ.get('VERIF_SEED', '0') or 0)
     spec = registry.PROPERTIES.get(pid)
@@ -74,7 +74,8 @@ def run_property(pid, tier, m=None, configs=None, quiet=False):
     for defs in cfgs:
         try:
             mm = m if (m is not None and not defs) else build_model(defs)
-            ctx = report.Ctx(mm)
+            # --all: one context for the default configuration, so a rule family shared by several properties runs once
+            ctx = shared_ctx if (shared_ctx is not None and not defs) else report.Ctx(mm)
             nfuncs = max(nfuncs, len(mm.funcs))
             nunits = max(nunits, len(mm.tus))
             for rule in spec['rules']:
@@ -259,8 +260,9 @@ def main():
         if a.all:
             m = build_model()
             rc = 0
+            shared = report.Ctx(m)
             for pid in sorted(registry.PROPERTIES):
-                r = run_property(pid, a.tier, m=m)
+                r = run_property(pid, a.tier, m=m, shared_ctx=shared)
                 rc = max(rc, r)
             return rc
         if not a.prop:
